@@ -1,7 +1,8 @@
 """Family "walledgarden" (extra family X09, not one of the 20 listed properties): pkg/walledgarden - the real walledgarden.Manager
 (per-MAC subscriber state, AddToWalledGarden / ReleaseFromWalledGarden / BlockMAC / RemoveMAC / SetSubscriberState, the expiry checker,
 the allowed-destination table, statistics, the MAC list) and its mirror in REAL kernel maps created by the harness and handed over with
-SetEBPFMaps, under testing/synctest virtual time.
+SetEBPFMaps, under testing/synctest virtual time; and pkg/wifi - the real wifi.Manager (WiFi-gateway sessions by MAC and by address, renewal,
+authentication, release, lease / grace-period cleanup, callbacks, statistics), contract specs/WalledGarden/WifiGateway.tla.
 
 Flow (on top of the generic table flow of tablecheck.py):
   0. TLC model-checks the implementation-shaped design spec of the code AS FOUND (specs/WalledGarden/WalledGardenShape.tla, Fixed = FALSE:
@@ -30,18 +31,23 @@ CLAUSES = ["LastSet", "Isolation", "RemovedAbsent", "NotFoundIgnored", "Mirror",
 SHAPE_CFG = dict(kind="wg", impl="shape", nm=2, maps=True, T=1, cap=4, full=1, order=False, dns=[1], portal=[3, 8080], custom=[],
                  ops=["add", "rel", "blk", "rm", "set", "adv", "race", "trace"], vlans=[5], sets=[0], advs=[1], racen=50000, nsubs=0)
 
-DESIGN = [("WalledGardenDesign", "MC_design.cfg", 4), ("WalledGardenShape", "MC_shape_fixed.cfg", 1)]
-DESIGN_THOROUGH = [("WalledGardenDesign", "MC_design_full.cfg", 4), ("WalledGardenShape", "MC_shape_fixed.cfg", 1),
-                   ("WalledGardenDesign", "MC_design_deep.cfg", 4), ("WalledGardenShape", "MC_shape_fixed_deep.cfg", 2)]
+# must describe the same configuration as Cfg in specs/WalledGarden/WifiGatewayShape.tla
+SHAPE_GW_CFG = dict(kind="gw", impl="shape-gw", nm=2, nip=1, L=2, GP=1, portal=True, reuse=True, cap=5, advs=[1], nsubs=0)
+
+DESIGN = [("WalledGardenDesign", "MC_design.cfg", 4), ("WalledGardenShape", "MC_shape_fixed.cfg", 1), ("WifiGatewayDesign", "MC_gw_design.cfg", 2),
+          ("WifiGatewayShape", "MC_gw_shape_fixed.cfg", 1)]
+DESIGN_THOROUGH = [("WalledGardenDesign", "MC_design_full.cfg", 4), ("WalledGardenShape", "MC_shape_fixed.cfg", 1), ("WifiGatewayDesign", "MC_gw_design.cfg", 2),
+                   ("WalledGardenDesign", "MC_design_deep.cfg", 4), ("WalledGardenShape", "MC_shape_fixed_deep.cfg", 2),
+                   ("WifiGatewayDesign", "MC_gw_design_deep.cfg", 4), ("WifiGatewayShape", "MC_gw_shape_fixed.cfg", 1)]
 
 
-def _design_counterexamples(work):
+def _design_counterexamples(work, module="WalledGardenShape", cfgfile="MC_shape_orig.cfg"):
     """TLC on the design as found; returns (tlc result, [(clauses, events)]) - the shortest history per clause set."""
     sd = os.path.join(SPECS, "WalledGarden")
-    cfg = open(os.path.join(sd, "MC_shape_orig.cfg")).read()
-    res = run_tlc(sd, "WalledGardenShape", cfg, work, workers=1, timeout=900, name="shape_orig")
+    cfg = open(os.path.join(sd, cfgfile)).read()
+    res = run_tlc(sd, module, cfg, work, workers=1, timeout=900, name=cfgfile[3:-4])
     if "Model checking completed" not in res["out"] or "Error:" in res["out"]:
-        raise Infra("WalledGardenShape (design as found) did not run to completion:\n" + res["out"][-2000:])
+        raise Infra("%s (design as found) did not run to completion:\n" % module + res["out"][-2000:])
     best = {}
     for line in res["out"].splitlines():
         line = line.strip()
@@ -77,17 +83,20 @@ def runner(prop, fam, tier, seed, replay=None):
         shape_info, design_stats, futures, pool = None, [], [], None
         if not replay:
             from concurrent.futures import ThreadPoolExecutor
-            pool = ThreadPoolExecutor(max_workers=4)
+            pool = ThreadPoolExecutor(max_workers=3 if tier == "thorough" else 4)
             try:
                 f0 = pool.submit(_design_counterexamples, pre)
+                f0g = pool.submit(_design_counterexamples, pre, "WifiGatewayShape", "MC_gw_shape_orig.cfg")
                 # U1 and the repaired design run in the background while the real code is explored
                 futures = [pool.submit(_design_must_pass, pre, m, c, w) for (m, c, w) in (DESIGN_THOROUGH if tier == "thorough" else DESIGN)]
                 res, cex = f0.result()
+                resg, cexg = f0g.result()
             except Infra as e:
                 pool.shutdown(wait=True)
                 print("INFRA-FAILURE property=%s %s" % (prop, str(e)[:3000]), flush=True)
                 return 2
             cases = [dict(id="cex%d" % i, system="shape", events=evs, cfg=SHAPE_CFG, clauses=cl) for i, (cl, evs) in enumerate(cex)]
+            cases += [dict(id="cex%d" % i, system="shape-gw", events=evs, cfg=SHAPE_GW_CFG, clauses=cl) for i, (cl, evs) in enumerate(cexg)]
             cf = os.path.join(pre, "extra_cases.json")
             json.dump(dict(property=prop, cases=cases), open(cf, "w"))
             env = dict(fam2.get("env", {}))
@@ -97,6 +106,11 @@ def runner(prop, fam, tier, seed, replay=None):
                               counterexamples=[dict(clauses=cl, events=[{k: v for k, v in e.items() if v not in (0, "", False) or k == "op"} for e in evs]) for cl, evs in cex],
                               note="counterexamples of the design as found; each is executed on the real manager as chain shape#cex<i> "
                                    "(a history that violates on the real code is reported through the normal VIOLATION / KNOWN-FINDING path)")
+            shape_info["gateway"] = dict(module="WifiGatewayShape", cfg="MC_gw_shape_orig.cfg", states=resg["distinct"], transitions=resg["generated"],
+                                         counterexamples=[dict(clauses=cl, events=[{k: v for k, v in e.items() if v not in (0, "", False) or k == "op"} for e in evs]) for cl, evs in cexg])
+            shape_info["states"] += resg["distinct"]
+            shape_info["transitions"] += resg["generated"]
+            cex = cex + cexg
             log("design as found: %d counterexample histories (%s)" % (len(cex), "; ".join(",".join(c) for c, _ in cex)))
         try:
             rc = table_check(prop, fam2, tier, seed, replay)
@@ -161,14 +175,19 @@ CHECKS = {
             "AddToWalledGarden(m) from a goroutine woken at the very tick at which the checker finds the first entry expired (10000 rounds at most); it ends on that tick and is the "
             "last step of its chain",
             "MirrorOnError goes beyond what the package states in so many words (a call that failed has told its caller so); it is a separate clause",
+            "pkg/wifi (systems gw-*, contract WifiGateway.tla): the real wifi.Manager under the same virtual-time discipline (cleanup ticker one minute, calls half a minute off the "
+            "ticks, LeaseDuration and GracePeriod whole minutes); callbacks are recorded by MAC and the bubble is drained (synctest.Wait) after every call; the session handed out by "
+            "GetSession is read while the manager is quiescent; an address is given to a second MAC while the first still has its session only in the gw-reuse systems",
             "not covered: OnRedirect, the statistics map, maps attached after entries exist, managers without maps never expiring anything (recorded, not judged), MACs that are "
-            "not six bytes long (all map to key 0), IPv6 destinations (ipToUint32 gives 0: an entry for 0.0.0.0), pkg/wifi gateway sessions",
+            "not six bytes long (all map to key 0), IPv6 destinations (ipToUint32 gives 0: an entry for 0.0.0.0), pkg/wifi traffic counters",
         ],
         explanation="WalledGarden.tla (contract, 5 sentences / 17 clauses) is model-checked against the guarantees stated over absolute histories (WalledGardenDesign: the contract "
                     "accepts a step iff the direct statement does, over documented and one-component-falsified observations; ghost = history); WalledGardenShape models manager.go "
                     "section by section (as found: TLC finds RemoveMAC's error for an absent key, the table written before a refused kernel write, two calls at once leaving "
                     "table and map apart, a set call during the checker's pass losing its entry, and the checker expiring PROVISIONED / BLOCKED entries; with the proposed repairs: clean). WalledGardenImpl walks the transition tables "
                     "extracted from the real Manager with real kernel maps under virtual time (closed under the alphabet: unbounded-length verdict relative to alphabet and "
-                    "fingerprint), seeded random chains on larger configurations, race chains, and the design counterexamples replayed on the real code.",
+                    "fingerprint), seeded random chains on larger configurations, race chains, and the design counterexamples replayed on the real code. WifiGateway.tla (5 sentences / 15 clauses, U1: WifiGatewayDesign) is the contract of "
+                    "pkg/wifi's session manager, walked over tables and chains extracted from the real wifi.Manager by the same monitor (systems with cfg.kind = gw); WifiGatewayShape models its two maps "
+                    "(as found: TLC finds the index entry deleted by the previous holder of an address; with the proposed repair: clean).",
     ),
 }
